@@ -1,8 +1,8 @@
 (* Property C19 — statements only.  Each theorem is closed by [exact] of a lemma proved in
    the C19/ files; Print Assumptions is evaluated by ./check on every run. *)
-From Coq Require Import List ZArith Bool.
+From Coq Require Import List ZArith Bool Permutation.
 From TskVerif Require Import Base.Common C19.Model C19.IbdAlg C19.RunsProofs C19.StoreProofs
-  C19.SpecProofs C19.AlgProofs C19.SliceProofs C19.RefineProofs C19.TwoPos.
+  C19.SpecProofs C19.AlgProofs C19.SliceProofs C19.RefineProofs C19.TwoPos C19.FullProofs C19.GroupProofs C19.TotalProofs.
 Import ListNotations.
 Open Scope Z_scope.
 
@@ -206,3 +206,45 @@ Proof. exact alg_same_record_iff_same_label_lemma. Qed.
 Theorem records_wellformed :
   forall (c : case) (out : list record), 0 <= cL c -> ibd_records c = Ok out -> Forall (rec_wf (cL c)) out.
 Proof. exact records_wellformed_lemma. Qed.
+
+(* (f) FULL refinement of the algorithm model to the specification.
+
+   For every case accepted by the checkable validity predicate Model.case_valid
+   (0 <= L; edges with ids in range, 0 <= left < right <= L, parent strictly older than child,
+   sorted by parent time, at most one parent per node and position; well-formed within/between
+   lists; non-negative thresholds — evaluated on every generated case by c19_check_valid):
+     - the model of tsk_ibd_finder never indexes outside its arrays and returns normally
+       (ibd_records c = Ok out: totality is a conclusion);
+     - the specification does not run out of fuel (pair_segments_filtered = Ok);
+     - for every requested pair (the SPECIFICATION's pair_requested) the recorded segments are,
+       as a multiset, exactly the specification's maximal runs of equal (MRCA, chain, chain)
+       labels filtered by span > min_span and time(MRCA) <= max_time;
+     - for every other pair nothing is recorded.
+   Remaining trust: the hand-written model vs. the C code (per-run correspondence C = IbdAlg
+   exactly), and that tskit's integrity check implies case_valid (checked per run). *)
+Theorem ibd_alg_refines_spec :
+  forall c : case, case_valid c = true ->
+    exists out : list record,
+      ibd_records c = Ok out /\
+      forall a b : Z, a <> b ->
+        (pair_requested c a b = true ->
+           exists segs, pair_segments_filtered c a b = Ok segs /\
+                        Permutation (map rec_seg (filter (pair_is a b) out)) segs) /\
+        (pair_requested c a b = false -> filter (pair_is a b) out = []).
+Proof. exact ibd_alg_refines_spec_lemma. Qed.
+
+(* one pair, unfiltered: the records are exactly the maximal runs *)
+Theorem pair_records_are_maximal_runs :
+  forall (c : case) (ssid : list Z) (out0 : list record) (a b : Z) (ls : list (option label)),
+    init_ssid c = Ok ssid ->
+    (forall x, 0 <= x < cL c -> valid_at (ctimes c) (cedges c) x) ->
+    a <> b -> requested (is_between c) ssid a b = true ->
+    ibd_records (unfiltered c) = Ok out0 -> labels c a b = Ok ls -> 0 <= cL c ->
+    Permutation (map rec_seg (RS out0 a b)) (map seg_of_run (rsL ls)).
+Proof. exact pair_records_are_runs. Qed.
+
+(* the algorithm's sample_set_id test is the specification's pair_requested *)
+Theorem requested_is_spec_requested :
+  forall c ssid a b, init_ssid c = Ok ssid -> a <> b ->
+    requested (is_between c) ssid a b = pair_requested c a b.
+Proof. exact requested_is_pair_requested. Qed.
